@@ -421,6 +421,7 @@ func (node *Node) Run(ctx context.Context) error {
 		}
 
 		logger.Info(ctx, "Stopping")
+		verifPoint("run.stopping")
 
 		node.txTracker.Stop() // This will reduce network messages
 
@@ -448,10 +449,12 @@ func (node *Node) Run(ctx context.Context) error {
 			waitCount++
 		}
 		logger.Info(ctx, "Incoming threads stopped")
+		verifPoint("run.incomingStopped")
 
 		// Close the channels to stop the processing threads.
 		node.outgoing.Close()
 		node.unconfTxChannel.Close()
+		verifPoint("run.channelsClosed")
 
 		// Wait for processing threads to stop.
 		waitCount = 0
@@ -468,12 +471,14 @@ func (node *Node) Run(ctx context.Context) error {
 			waitCount++
 		}
 		logger.Info(ctx, "Processing threads stopped")
+		verifPoint("run.processingStopped")
 
 		// Save block repository
 		logger.Verbose(ctx, "Saving")
 		node.blocks.Save(ctx)
 		node.txs.Save(ctx)
 		node.peers.Save(ctx)
+		verifPoint("run.saved")
 
 		node.lock.Lock()
 		if !node.needsRestart || node.hardStop {
@@ -486,8 +491,10 @@ func (node *Node) Run(ctx context.Context) error {
 		node.stopping = false
 		node.lock.Unlock()
 		node.state.Reset()
+		verifPoint("run.restarting")
 	}
 
+	verifPoint("run.stopped")
 	node.lock.Lock()
 	node.stopped = true
 	node.lock.Unlock()
